@@ -29,10 +29,12 @@ SPEC = {
                   "wallet_outputs_in_truth": 1500, "foreign_outputs_in_truth": 2500, "tracked_spends_in_truth": 300,
                   "corruptions_rejected_batched": 250, "distinct_schedules_observed": 30, "distinct_nontrivial": 80,
                   "prior_state_corruptions": 20, "prior_state_frontier_emptied_ironwood": 4, "prior_state_frontier_emptied_orchard": 4, "prior_state_frontier_emptied_sapling": 4,
-                  "prior_state_true_state_accepted": 20},
+                  "prior_state_true_state_accepted": 20, "corruptions_mid_batch": 150, "corruption_mid_batch_IronwoodSizePlus1": 4,
+                  "corruption_HeaderGarbageHashEmpty": 5, "corruption_HeaderGarbagePrevHashShort": 5},
         "thorough": {"inline_blocks_checked": 12000, "batched_blocks_checked": 16000, "inline_vs_batched_comparisons": 10000,
                      "wallet_outputs_in_truth": 100000, "corruptions_rejected_batched": 15000, "distinct_schedules_observed": 300, "distinct_nontrivial": 400,
-                     "prior_state_corruptions": 1000, "prior_state_frontier_emptied_ironwood": 150, "prior_state_true_state_accepted": 1000},
+                     "prior_state_corruptions": 1000, "prior_state_frontier_emptied_ironwood": 150, "prior_state_true_state_accepted": 1000,
+                     "corruptions_mid_batch": 8000, "corruption_mid_batch_IronwoodSizePlus1": 150, "corruption_HeaderGarbageHashEmpty": 150},
     },
     "manifest": {
         "technique": "three-observer differential (inline scan / batched scan -> database / fabricated ground truth) + corruption operators with a whole-database dump oracle, under varied rayon pool sizes and hook-injected delays with schedule logging",
